@@ -33,7 +33,7 @@ static int sched[256], nsched;          /* forced choices */
 static int made[256], branch[256], nmade;
 static int random_mode; static uint64_t rng;
 static int idle_reached, a_wrote, term_sent, nselect_idle, nselect_run;
-#define SELECT_STORM 3000               /* a run of the unmodified daemon makes ~100-200 selects; far beyond that it is spinning */
+#define SELECT_STORM 1000               /* a run of the unmodified daemon makes ~100-200 selects; far beyond that it is spinning */
 static long link_clock[SIM_MAXINO];
 
 static void xlog(const char *fmt, ...) { char b[600]; va_list ap; va_start(ap, fmt); int n = vsnprintf(b, sizeof b, fmt, ap); va_end(ap); hbuf_add(&sim_trace, b, n); }
